@@ -329,6 +329,47 @@ def emptyDictSub : PyVal → Bool
   | .dict (some _) [] => true
   | _ => false
 
+/-- `frozenset(<non-empty list literal>)` written as a call: the shape a truncated frozenset is shown in (`Proofs/Shown.lean`);
+the reader gives it the reading of a frozenset literal -/
+def isListLit : PyVal → Bool
+  | .seq 0 none (_ :: _) => true
+  | _ => false
+
+theorem isListLit_spec (v : PyVal) (h : isListLit v = true) : ∃ y ys, v = .seq 0 none (y :: ys) := by
+  unfold isListLit at h
+  split at h
+  · exact ⟨_, _, rfl⟩
+  · cases h
+
+def soleListLit : List PyVal → Bool
+  | [x] => isListLit (stripComments x)
+  | _ => false
+
+def fsetLit (f : QualName) (args : List PyVal) (kwargs : List (Str × PyVal)) : Bool :=
+  f.2 == sFrozenset && kwargs.isEmpty && soleListLit args
+
+theorem emptyDictSub_strip : ∀ (v : PyVal), emptyDictSub v = emptyDictSub (stripComments v)
+  | .commented v _ => by simp only [emptyDictSub, stripComments]; exact emptyDictSub_strip v
+  | .trailing v _ => by simp only [emptyDictSub, stripComments]; exact emptyDictSub_strip v
+  | .none => rfl
+  | .ellipsis => rfl
+  | .bool _ => rfl
+  | .int _ _ _ => rfl
+  | .float _ _ _ _ _ => rfl
+  | .str _ _ _ => rfl
+  | .seq _ _ _ => rfl
+  | .frozenset _ _ => rfl
+  | .dict _ _ => rfl
+  | .call _ _ _ => rfl
+  | .opaque _ => rfl
+  | .timedelta _ _ _ => rfl
+  | .ident _ => rfl
+  | .path _ _ => rfl
+
+/-- what `name(items)` denotes: a frozenset for `frozenset([...])`, the call otherwise -/
+def callR (lit : Bool) (name : Str) (items : List RVal) : RVal :=
+  if lit then (match items with | [.list rs] => .fset rs | _ => .call name items) else .call name items
+
 mutual
 /-- the readable fragment: built-in values, instances of their subclasses (C08) and call-style printed objects (C17), nested
 in any way, with comments anywhere — except a non-empty trailing comment on an empty dict-subclass instance (K7) -/
@@ -344,7 +385,7 @@ def inRd : PyVal → Bool
   | .seq kind cls xs => clsOk cls && decide (kind ≤ 2) && inRdL xs
   | .frozenset cls xs => clsOk cls && inRdL xs
   | .dict cls kvs => clsOk cls && inRdP kvs
-  | .call f args kwargs => okName f.2 && inRdL args && inRdK kwargs
+  | .call f args kwargs => (okName f.2 || fsetLit f args kwargs) && inRdL args && inRdK kwargs
   | _ => false
 def inRdL : List PyVal → Bool
   | [] => true
@@ -382,7 +423,7 @@ def erase : PyVal → RVal
   | .seq kind cls xs => wrapNE cls xs.isEmpty (mkSeq kind (eraseL xs))
   | .frozenset cls xs => fsetR cls xs.isEmpty (eraseL xs)
   | .dict cls kvs => wrapNE cls kvs.isEmpty (.dict (eraseP kvs))
-  | .call f args kwargs => .call f.2 (eraseL args ++ eraseK kwargs)
+  | .call f args kwargs => callR (fsetLit f args kwargs) f.2 (eraseL args ++ eraseK kwargs)
   | _ => .kw []
 def eraseL : List PyVal → List RVal
   | [] => []
@@ -638,6 +679,51 @@ theorem pairPairs_snd (ctx : Ctx) : ∀ kvs, (pairPairs ctx kvs).map (·.2) = er
 theorem pairPairs_length (ctx : Ctx) : ∀ kvs, (pairPairs ctx kvs).length = kvs.length
   | [] => rfl
   | (k, v) :: r => by simp [pairPairs, pairPairs_length ctx r]
+
+/-- comments are invisible to what a value denotes and (up to the trailing comment handed down) to its tokens -/
+theorem erase_strip : ∀ (v : PyVal), erase v = erase (stripComments v)
+  | .commented v _ => by simp only [erase, stripComments]; exact erase_strip v
+  | .trailing v _ => by simp only [erase, stripComments]; exact erase_strip v
+  | .none => rfl
+  | .ellipsis => rfl
+  | .bool _ => rfl
+  | .int _ _ _ => rfl
+  | .float _ _ _ _ _ => rfl
+  | .str _ _ _ => rfl
+  | .seq _ _ _ => rfl
+  | .frozenset _ _ => rfl
+  | .dict _ _ => rfl
+  | .call _ _ _ => rfl
+  | .opaque _ => rfl
+  | .timedelta _ _ _ => rfl
+  | .ident _ => rfl
+  | .path _ _ => rfl
+
+theorem canon_strip (ctx : Ctx) : ∀ (v : PyVal) (tr : Option PS), ∃ tr', canonW ctx v tr = canonW ctx (stripComments v) tr'
+  | .commented v _, tr => by simp only [canonW, stripComments]; exact canon_strip ctx v tr
+  | .trailing v t, tr => by simp only [canonW, stripComments]; exact canon_strip ctx v (some t)
+  | .none, tr => ⟨tr, rfl⟩
+  | .ellipsis, tr => ⟨tr, rfl⟩
+  | .bool _, tr => ⟨tr, rfl⟩
+  | .int _ _ _, tr => ⟨tr, rfl⟩
+  | .float _ _ _ _ _, tr => ⟨tr, rfl⟩
+  | .str _ _ _, tr => ⟨tr, rfl⟩
+  | .seq _ _ _, tr => ⟨tr, rfl⟩
+  | .frozenset _ _, tr => ⟨tr, rfl⟩
+  | .dict _ _, tr => ⟨tr, rfl⟩
+  | .call _ _ _, tr => ⟨tr, rfl⟩
+  | .opaque _, tr => ⟨tr, rfl⟩
+  | .timedelta _ _ _, tr => ⟨tr, rfl⟩
+  | .ident _, tr => ⟨tr, rfl⟩
+  | .path _ _, tr => ⟨tr, rfl⟩
+
+theorem okName_not_fsetLit (f : QualName) (args : List PyVal) (kwargs : List (Str × PyVal)) (h : okName f.2 = true) :
+    fsetLit f args kwargs = false := by
+  obtain ⟨c, l, hs, _, _, _, _, e7, _⟩ := okName_facts f.2 h
+  simp only [fsetLit, Bool.and_eq_false_iff]
+  left; left
+  rw [hs] at e7 ⊢
+  exact e7
 
 /-! ### wrappers -/
 
@@ -994,8 +1080,71 @@ theorem canon_reads : (v : PyVal) → inRd v = true → ∀ (ctx : Ctx), Free ct
           exact this.mono (by simp; omega)
   | .call fn args kwargs, h, ctx, hf, tr, _ => by
       simp only [inRd, Bool.and_eq_true] at h
-      obtain ⟨⟨hn, ha⟩, hk⟩ := h
-      simp only [canonW, hf.any, Bool.false_eq_true, if_false, erase, need]
+      obtain ⟨⟨hn0, ha⟩, hk⟩ := h
+      by_cases hfs : fsetLit fn args kwargs = true
+      · -- `frozenset([...])` written as a call: the reading of a frozenset literal
+        simp only [canonW, hf.any, Bool.false_eq_true, if_false, erase, need, hfs, callR, if_true]
+        simp only [fsetLit, Bool.and_eq_true, beq_iff_eq, List.isEmpty_iff] at hfs
+        obtain ⟨⟨hname, hk0⟩, hshape⟩ := hfs
+        subst hk0
+        cases args with
+        | nil => simp [soleListLit] at hshape
+        | cons x rest =>
+          cases rest with
+          | cons x2 r2 => simp [soleListLit] at hshape
+          | nil =>
+            simp only [soleListLit] at hshape
+            obtain ⟨y, ys, hstrip⟩ := isListLit_spec _ hshape
+            simp only [inRdL, Bool.and_eq_true] at ha
+            have ihx := canon_reads x ha.1 ctx hf none (by
+              intro he
+              rw [emptyDictSub_strip, hstrip] at he
+              simp [emptyDictSub] at he)
+            have herase : erase x = .list (eraseL (y :: ys)) := by
+              rw [erase_strip x, hstrip]; simp [erase, wrapNE, mkSeq]
+            obtain ⟨trx, hcan⟩ := canon_strip ctx x none
+            have hhead : ∃ r, canonW ctx x none = .code [91] :: r := by
+              rw [hcan, hstrip]
+              simp only [canonW]
+              rw [seq_body ctx hf 0 y ys (nonEmpty? trx)]
+              refine ⟨canonW ctx.nested y none ++ tailToks (canonL ctx.nested ys) ((nonEmpty? trx).isSome || ((0 : Nat) == 1 && ys.isEmpty)) ++
+                [(bracketToks 0).2], ?_⟩
+              simp [bracketToks]
+            obtain ⟨r, hr⟩ := hhead
+            have hhug : hugCall [x] [] = true := by
+              simp [hugCall, hstrip, isHuggable]
+            simp only [hhug, if_true, eraseL, eraseK, List.append_nil, herase]
+            have hname' : cd fn.2 = [.code sFrozenset] := by rw [hname]; simp [sFrozenset, cd, isBlank]
+            simp only [callToks, hname', canonL, seqToks, hr, List.append_nil]
+            refine ⟨headOk_code _ (by decide) (by decide) (by decide) (by decide) (by decide) _, ?_⟩
+            intro f hfu rest
+            cases f with
+            | zero => omega
+            | succ f =>
+              have hread := ihx.reads (f + 1) (by simp [needL, needK] at hfu ⊢; omega) (RP :: rest)
+              rw [hr, herase] at hread
+              simp only [List.cons_append] at hread
+              rw [parseV_list] at hread
+              simp only [List.cons_append, List.nil_append, List.append_assoc, List.singleton_append, LP, Bool.false_eq_true, if_false]
+              have hfs2 := parseV_fset f (r ++ RP :: rest)
+              simp only [LP] at hfs2
+              rw [hfs2]
+              revert hread
+              generalize parseTailStart f [93] (r ++ RP :: rest) = res
+              intro hread
+              cases res with
+              | none => simp [asList] at hread
+              | some t =>
+                obtain ⟨xs, tc, r'⟩ := t
+                simp only [asList, Option.some.injEq, Prod.mk.injEq, RVal.list.injEq] at hread
+                rw [hread.1, hread.2]
+                simp [asFset, RP, eraseL]
+      have hn : okName fn.2 = true := by
+        rcases Bool.or_eq_true _ _ |>.mp hn0 with h1 | h1
+        · exact h1
+        · exact absurd h1 hfs
+      have hfs' : fsetLit fn args kwargs = false := by simpa using hfs
+      simp only [canonW, hf.any, Bool.false_eq_true, if_false, erase, need, hfs', callR]
       -- hugging only changes the context of the sole argument, and a free context is free at every level
       have hargs : ∀ (c : Ctx), Free c → ∀ q ∈ elemPairs c args, ElemOk q.1 q.2 (max (needL args) (needK kwargs)) := by
         intro c hc q hq
